@@ -1,9 +1,13 @@
 package c20
 
 import (
+	"crypto/sha256"
+	"encoding/hex"
+	"encoding/json"
 	"fmt"
 	"sort"
 	"strings"
+	"unicode/utf8"
 )
 
 // HeightTxs is the content of one DA height (placement order = position).
@@ -12,10 +16,53 @@ type HeightTxs struct {
 	Txs []string `json:"txs"`
 }
 
+// MarshalJSON writes the transactions readably: printable ones as they are, binary ones as 0x<hex>, long ones
+// abbreviated (the case is regenerated from the seed, never read back from JSON).
+func (ht HeightTxs) MarshalJSON() ([]byte, error) {
+	type out struct {
+		H   uint64   `json:"h"`
+		Txs []string `json:"txs"`
+	}
+	o := out{H: ht.H}
+	for i, t := range ht.Txs {
+		if i >= 40 {
+			o.Txs = append(o.Txs, fmt.Sprintf("... %d more", len(ht.Txs)-i))
+			break
+		}
+		o.Txs = append(o.Txs, showTx(t, 64))
+	}
+	return json.Marshal(o)
+}
+
+func printable(t string) bool {
+	if !utf8.ValidString(t) {
+		return false
+	}
+	for _, r := range t {
+		if r < 0x20 || r == 0x7f || r == utf8.RuneError {
+			return false
+		}
+	}
+	return true
+}
+
+// showTx renders a transaction for reports.
+func showTx(t string, maxLen int) string {
+	if len(t) > maxLen {
+		sum := sha256.Sum256([]byte(t))
+		return fmt.Sprintf("0x%s…(%d bytes, sha256 %s)", hex.EncodeToString([]byte(t[:8])), len(t), hex.EncodeToString(sum[:4]))
+	}
+	if printable(t) {
+		return t
+	}
+	return "0x" + hex.EncodeToString([]byte(t))
+}
+
 // ErrAt scripts one failing retrieval of a DA height.
 type ErrAt struct {
-	H    uint64 `json:"h"`
-	Kind string `json:"kind"` // listerr | chunkerr
+	H     uint64 `json:"h"`
+	Kind  string `json:"kind"`            // listerr | chunkerr
+	Chunk int    `json:"chunk,omitempty"` // chunkerr: which chunk fetch of the height fails
 }
 
 // Step is one step of a case.
@@ -24,12 +71,29 @@ type Step struct {
 	Limit uint64      `json:"limit,omitempty"`
 	Errs  []ErrAt     `json:"errors,omitempty"` // armed right before the call
 	Grow  []HeightTxs `json:"grow,omitempty"`   // heights above the current head, increasing; no txs = empty height
+	// Cursor (restart steps): which LastBatchData the caller passes after the restart: "" = the one of the last
+	// response (a caller that kept it), "nil" = none (a caller that lost it), "stale" = the one before.
+	Cursor string `json:"last_batch_data,omitempty"`
+	// CrashAfter (call steps of the crash experiment): the datastore dies after this many more durable writes,
+	// i.e. inside the call; 0 = not armed, k = k-1 writes succeed.
+	CrashAfter int `json:"crash_after_writes,omitempty"`
+}
+
+// DefaultLimit is what the harness assumes a request without a size (MaxBytes = 0) admits at least: the model
+// only needs "more than any generated DA content" (cases are generated below it).
+const DefaultLimit = 1_500_000
+
+func effLimit(l uint64) uint64 {
+	if l == 0 {
+		return DefaultLimit
+	}
+	return l
 }
 
 // Case is one generated history.
 type Case struct {
 	ID      int         `json:"id"`
-	Region  string      `json:"region"` // clean | skips-unproduced | partial-fit | oversize (how it was generated)
+	Region  string      `json:"region"` // clean | skips-unproduced | partial-fit | oversize | free | crash-inside (how it was generated)
 	Start   uint64      `json:"da_start_height"`
 	Drift   uint64      `json:"max_height_drift"`
 	Initial []HeightTxs `json:"initial"`
@@ -160,6 +224,7 @@ func (s *sim) call(stepIdx int, limit uint64) {
 	if s.pb != nil {
 		return
 	}
+	limit = effLimit(limit)
 	var size uint64
 	for h := s.cursor; h <= s.cursor+s.drift; h++ {
 		if q := s.errs[h]; len(q) > 0 {
@@ -283,6 +348,9 @@ func classifySplit(B []string, E []TxAt, p, m int, limit uint64) (id, detail str
 }
 
 func short(t string) string {
+	if !printable(t) {
+		return showTx(t, 10)
+	}
 	if len(t) > 10 {
 		return fmt.Sprintf("%s…(%dB)", t[:8], len(t))
 	}
